@@ -337,6 +337,17 @@ def g_powers(ctx, rng, i):
     sh = np.eye(n, dtype=int)
     sh[0, 1] = int(rng.integers(1, 3))
     big.append(g.Transformation(sh))
+    # unipotent maps whose nilpotent part does not square to zero (a shear combined with a translation), integer and float
+    un = np.eye(n) + np.triu(gen.coords(rng, (n, n), 2, "int"), 1)
+    for j in range(n - 1):
+        if un[j, j + 1] == 0:
+            un[j, j + 1] = 1
+    for tu in (g.Transformation(un.astype(int)), g.Transformation(un * gen.pick(rng, [1.0, 2.0, -0.5]))):
+        for k in (2, 3, -1, -2, 5):
+            try:
+                tu ** k
+            except Exception:
+                pass  # judged by the monitor
     for tb_ in big:
         for k in (27, 30, -30):
             try:
